@@ -18,13 +18,16 @@ def lib_errors():
 class CrcRecorder:
     """wraps the (transformed) real calc_crc24q: records (argument, result) of every call"""
 
-    def __init__(self, inner):
+    def __init__(self, inner, hook=None):
         self.inner = inner
         self.calls = []
+        self.hook = hook
 
     def __call__(self, msg):
         r = self.inner(msg)
         self.calls.append((msg, r))
+        if self.hook is not None:
+            self.hook(msg, r)
         return r
 
 
@@ -59,11 +62,12 @@ def iterate(stream, mode=1, validate=1, parsed=True, labelmsm=1, use_handler=Tru
     st = shims.install()
     run = Run()
     inner = kw.pop('crc_inner', None)
+    hook_ = kw.get('crc_hook')
     if inner is None:
         inner = CrcSummary()
     elif inner == 'direct':
         inner = base_crc()
-    rec = CrcRecorder(inner)
+    rec = CrcRecorder(inner, kw.pop('crc_hook', None))
     shims.set_crc(rec)
     run.crc = rec
     run.handler = Handler() if use_handler else None
